@@ -93,6 +93,7 @@ BLOCKS = [
     ("code-fence-indented", [" ```", "x", " ```"]),
     ("tag-list", ["{% t %}", "- a", "- b", "{% /t %}"]),
     ("tag-table", ["<!-- t -->", "| a |", "|---|", "| b |", "<!-- /t -->"]),
+    ("code-close-trailing-space", ["```", "x", "```   "]),
 ]
 NAMES = [n for n, _ in BLOCKS]
 
